@@ -171,6 +171,12 @@ for ax in [None, 0, 1, 2, -1, -2, -3]:
     T('sum(T,%s)' % ax, 'T', (lambda r, ax=ax: algopy.sum(r, axis=ax)), tags=('core', 'poly'))
 for k, ix in {'[0]': 0, '[:,1]': (slice(None), 1), '[...,0]': (Ellipsis, 0), '[1,::-1]': (1, slice(None, None, -1)), '[:,:,1:]': (slice(None), slice(None), slice(1, None))}.items():
     T('T' + k, 'T', (lambda r, ix=ix: r[ix]), tags=('core', 'poly', 'view'))
+# negative integers behind an Ellipsis / newaxis (the axis a negative index refers to is not its position in the index tuple)
+for k, ix in {'[...,-1]': (Ellipsis, -1), '[...,-3]': (Ellipsis, -3), '[-1,...,-2]': (-1, Ellipsis, -2), '[None,...,-1]': (None, Ellipsis, -1),
+              '[...,-2,:]': (Ellipsis, -2, slice(None)), '[-2]': -2, '[:,-1,-3:]': (slice(None), -1, slice(-3, None))}.items():
+    T('T' + k, 'T', (lambda r, ix=ix: r[ix]), tags=('core', 'poly', 'view'))
+for k, ix in {'[...,-1]': (Ellipsis, -1), '[None,-1]': (None, -1), '[-1,...]': (-1, Ellipsis), '[None,...,-2]': (None, Ellipsis, -2)}.items():
+    T('M' + k, 'M', (lambda r, ix=ix: r[ix]), tags=('core', 'poly', 'view'))
 T('dot(T,V)', 'TV', algopy.dot, tags=('core', 'poly'))
 T('dot(T,M)', 'TM', algopy.dot, tags=('core', 'poly'))
 T('dot(T,cV)', 'T', lambda r: algopy.dot(r, cV), tags=('core', 'poly'))
@@ -212,6 +218,8 @@ T('solve(G(M),V[:,None])', 'MV', lambda a, b: algopy.solve(G(a), algopy.reshape(
 T('det(G(M))', 'M', lambda r: algopy.det(G(r)), dom=gcond, tags=('linalg',))
 T('det(M)', 'M', algopy.det, dom=lambda r: abs(np.linalg.det(np.asarray(r, dtype=float))) > 1e-3 and np.linalg.cond(np.asarray(r, dtype=float)) < 1e3, tags=('linalg',))
 T('logdet(spd(M))', 'M', lambda r: algopy.logdet(algopy.dot(r, r.T) + cI), tags=('linalg',))
+# non-symmetric argument with positive determinant (rows of the general-matrix adapter reversed)
+T('logdet(G(M)[::-1])', 'M', lambda r: algopy.logdet(G(r)[::-1]), dom=lambda r: np.linalg.det((np.asarray(r, dtype=float) + cK)[::-1]) > 1.0 and gcond(r), tags=('linalg',))
 T('diag(M)', 'M', algopy.diag, tags=('linalg', 'poly'))
 T('diag(V)', 'V', algopy.diag, tags=('linalg', 'poly'))
 T('triu(M)', 'M', algopy.triu, tags=('linalg', 'poly'))
